@@ -231,7 +231,7 @@ func (e *Sim) Run(ctx *core.Ctx, idx int) {
 		refs = append(refs, edsRef{ns, name})
 	}
 	mk("ns1", "foo")
-	if e.P.Overrides > 0 {
+	if e.P.Overrides > 0 && !e.P.MultiEDS {
 		w.overridesSetup(r, "ns1", "foo")
 	}
 	if e.P.MultiEDS {
@@ -253,6 +253,12 @@ func (e *Sim) Run(ctx *core.Ctx, idx int) {
 		w.S.Inject(up2)
 		if r.Intn(2) == 0 {
 			w.NewOldDaemonSet("ns2", "old-agent", map[string]string{"app": "old-agent"}, []string{"n0"})
+		}
+		if e.P.Overrides > 0 {
+			// overrides and settings of each ExtendedDaemonSet: those of one must never reach the pods of another
+			for _, ref := range refs {
+				w.overridesSetup(r, ref.ns, ref.name)
+			}
 		}
 	}
 	desc := map[string]any{"nodes": nNodes, "canary": ckind, "affinityMode": aff, "shape": fmt.Sprintf("sel=%v aff=%v tol=%d", sh.Selector, sh.Affinity != nil, len(sh.Tolerations)),
